@@ -145,6 +145,7 @@ def run(ctx: Ctx, rep: Report) -> None:
     rep.rule("C20-R3", "processing a datagram writes nothing to shared state except the lazily built security model", floor=3)
     rep.rule("C20-R4", "no eager recursion on the decode path", floor=1)
     rep.rule("C20-R5", "a lazily decoded SEQUENCE is walked once: no indexing / len() / .value of it inside a loop (each access re-decodes the whole value: quadratic time in the datagram size)", floor=1)
+    rep.rule("C20-R8", "no datagram is rendered recursively (pretty / repr of the decoded tree) unless debug logging asks for it", floor=1)
     rep.rule("C20-R7", "no reply makes the UDP sender spin: the retry loop returns at the first reply and otherwise uses up one retry per iteration (shared with C13-R2)", floor=7)
     rep.rule("C20-R6", "a failed exchange leaves no per-datagram state behind: every store to shared state in the package is a justified, operation-independent instance (shared with C14-R1)", floor=10)
     rep.assumptions += [
@@ -285,6 +286,26 @@ def run(ctx: Ctx, rep: Report) -> None:
             allowed = allowed or (fn.cls is not None and fn.cls.name == "Loader" and st.path == "self.discovered_plugins")
             rep.check(allowed, "C20-R3", fn.site(st.node), f"`{norm(st.node)[:60]}` on the decode path leaves the client usable (operation-independent lazy construction only)", f"store to {st.owner}-owned `{st.path}` while processing a datagram", key=f"{fn.key}|decode-store|{st.path}")
     rep.ok("C20-R3", roots[0].site() if roots else "-", "decode paths were scanned for stores to shared state", f"{len(reach)} functions reachable from the three message-processing decode entry points")
+
+    # ------------------------------------------------------------ R8: no unconditional deep rendering of the datagram
+    x690_base = ctx.u.cls("x690.types:X690Type")
+    rendered = 0
+    for fn in reach.values():
+        for node in own_nodes(fn.node):
+            if not isinstance(node, ast.Call):
+                continue
+            deep = None
+            if isinstance(node.func, ast.Attribute) and node.func.attr == "pretty":
+                deep = norm(node)
+            elif isinstance(node.func, ast.Name) and node.func.id in ("repr", "str") and len(node.args) == 1:
+                if any(ctx.r.is_subclass(c, x690_base) for c in ctx.r.expr_classes(fn, node.args[0])):
+                    deep = norm(node)
+            if deep is None:
+                continue
+            rendered += 1
+            guarded = any(isinstance(a, ast.If) and "isEnabledFor" in norm(a.test) for a in ancestors(node))
+            rep.check(guarded, "C20-R8", fn.site(node), f"{fn.qualname}: the decoded message is not rendered recursively for every datagram (arguments of a log call are evaluated whatever the log level; depth and cost follow the attacker's nesting)", f"`{deep[:70]}` is evaluated unconditionally", key=f"{fn.key}|eager-rendering")
+    rep.ok("C20-R8", roots[0].site() if roots else "-", "decode paths were scanned for unconditional pretty() / repr() of decoded values", f"{rendered} rendering call(s) found in {len(reach)} functions")
 
     # ------------------------------------------------------------ R5
     redecode = []
